@@ -568,8 +568,17 @@ fn cps_sample(seed: u64, budget: usize) -> Vec<u32> {
 
 fn search(pid: &str, seed: u64, budget: usize) -> Option<(String, String)> {
     let strs = corpus(seed, budget);
+    // a panic inside a clause is a panic of the library operation the clause calls: for every property that says what
+    // the operation returns it is a failing input (for C16, which only compares forms and histories, it is skipped)
+    let skip_panics = pid == "C16";
     let by_str = |f: &dyn Fn(&str) -> Option<String>| -> Option<(String, String)> {
-        for s in &strs { if let Some(d) = f(s) { return Some((json_str(s), d)); } }
+        for s in &strs {
+            match catch_unwind(AssertUnwindSafe(|| f(s))) {
+                Ok(Some(d)) => return Some((json_str(s), d)),
+                Ok(None) => {}
+                Err(_) => if !skip_panics { return Some((json_str(s), "PANIC in a library operation of this property (it must return Ok or a typed error)".to_string())); },
+            }
+        }
         None
     };
     match pid {
@@ -662,15 +671,15 @@ fn replay(pid: &str, input: &str) -> i32 {
         let mut o = String::new(); let cs: Vec<char> = j.trim().trim_matches('"').chars().collect(); let mut i = 0;
         while i < cs.len() { if cs[i] == '\\' && i + 1 < cs.len() { match cs[i + 1] { 'u' => { let h: String = cs[i + 2..i + 6].iter().collect(); o.push(char::from_u32(u32::from_str_radix(&h, 16).unwrap()).unwrap()); i += 6; continue; } c => { o.push(c); i += 2; continue; } } } o.push(cs[i]); i += 1; }
         o };
-    let d = match pid {
+    let d = match catch_unwind(AssertUnwindSafe(|| Ok::<Option<String>, i32>(match pid {
         "C01" => if input.trim().starts_with('"') { c01(&parse_str(input)) } else { c01_cp(input.trim().parse().unwrap()) },
         "C02" => c02(&parse_str(input)), "C03" => c03(&parse_str(input)), "C04" => c04(&parse_str(input)), "C05" => c05(&parse_str(input)),
         "C06" => c06(&parse_str(input)), "C08" | "C08known" => c08(&parse_str(input)), "C09" => c09(&parse_str(input), false), "C09exact" => c09(&parse_str(input), true),
         "C10" => c10(&parse_str(input)), "C11" => c11(&parse_str(input)), "C12" => c12(&parse_str(input)), "C16" => c16(&parse_str(input)).or_else(|| c16_history(&parse_str(input))),
         "C14" => c14_cp(input.trim().parse().unwrap()),
         "C07" => { let t = input.trim().trim_start_matches('[').trim_end_matches(']'); let mid = t.find("\",\"").unwrap(); c07_pair(&parse_str(&t[..mid + 1]), &parse_str(&t[mid + 2..])) }
-        _ => { println!("replay of {} inputs: re-run `search`", pid); return 2; }
-    };
+        _ => { println!("replay of {} inputs: re-run `search`", pid); return Err(2); }
+    }))) { Ok(Ok(d)) => d, Ok(Err(rc)) => return rc, Err(_) => Some("PANIC in a library operation of this property (it must return Ok or a typed error)".to_string()) };
     match d { Some(d) => { println!("FAILS on the real code: {}", d); 1 } None => { println!("passes on the real code"); 0 } }
 }
 
